@@ -388,25 +388,25 @@ void Executor::check_basis(Obj& o, bool from_solve) {
     else if (st < 0 || st > 5) why = "column status out of range";
   }
   if (why.empty() && nb != m) why = std::to_string(nb) + " basic variables for " + std::to_string(m) + " rows";
-  if (!why.empty()) { viol("C04", nb != m && why.find("basic variables") != std::string::npos ? "basic_count" : "invalid_status", why, ctx); return; }
+  if (!why.empty()) { viol(basis_prop_, nb != m && why.find("basic variables") != std::string::npos ? "basic_count" : "invalid_status", why, ctx); return; }
   // getBasisInd describes the same set (the call is only made when the count is right; sentinel detects overruns)
   if (known_skip("C04", "basisind", ctx)) return;
   std::vector<int> bind; s.getBasisInd(bind, m + n + 8);
   int written = 0; for (int k = 0; k < (int)bind.size(); k++) if (bind[k] != INT_MIN) written = k + 1;
-  if (written > m) { viol("C04", "basisind_overrun", "getBasisInd wrote " + std::to_string(written) + " entries into an array for " + std::to_string(m) + " rows", ctx); return; }
+  if (written > m) { viol(basis_prop_, "basisind_overrun", "getBasisInd wrote " + std::to_string(written) + " entries into an array for " + std::to_string(m) + " rows", ctx); return; }
   std::vector<char> seenR(m, 0), seenC(n, 0);
   for (int k = 0; k < m; k++) {
     int b = bind[k];
-    if (b == INT_MIN) { viol("C04", "basisind_mismatch", "getBasisInd left entry " + std::to_string(k) + " unset", ctx); return; }
-    if (b >= 0) { if (b >= n || cols[b] != sut::VS_BASIC || seenC[b]) { viol("C04", "basisind_mismatch", "getBasisInd entry " + std::to_string(k) + " = column " + std::to_string(b) + " is not a (distinct) basic column", ctx); return; } seenC[b] = 1; }
-    else { int r = -1 - b; if (r >= m || rows[r] != sut::VS_BASIC || seenR[r]) { viol("C04", "basisind_mismatch", "getBasisInd entry " + std::to_string(k) + " = row " + std::to_string(r) + " is not a (distinct) basic row", ctx); return; } seenR[r] = 1; }
+    if (b == INT_MIN) { viol(basis_prop_, "basisind_mismatch", "getBasisInd left entry " + std::to_string(k) + " unset", ctx); return; }
+    if (b >= 0) { if (b >= n || cols[b] != sut::VS_BASIC || seenC[b]) { viol(basis_prop_, "basisind_mismatch", "getBasisInd entry " + std::to_string(k) + " = column " + std::to_string(b) + " is not a (distinct) basic column", ctx); return; } seenC[b] = 1; }
+    else { int r = -1 - b; if (r >= m || rows[r] != sut::VS_BASIC || seenR[r]) { viol(basis_prop_, "basisind_mismatch", "getBasisInd entry " + std::to_string(k) + " = row " + std::to_string(r) + " is not a (distinct) basic row", ctx); return; } seenR[r] = 1; }
   }
   bind.resize(m);
   if (from_solve) {
     std::vector<std::vector<Q>> B, inv;
     LP img = real_image(o.lp);
     if (img.nrows() == m && img.ncols() == n && model::basis_matrix(img, bind, B) && !model::exact_inverse(B, inv))
-      viol("C04", "singular_basis", "basis matrix assembled from the model is exactly singular", ctx);
+      viol(basis_prop_, "singular_basis", "basis matrix assembled from the model is exactly singular", ctx);
   }
 }
 
@@ -415,6 +415,7 @@ void Executor::check_inverse(Obj& o) {
   auto& s = *o.s;
   int m = s.numRows(), n = s.numCols();
   if (m == 0) return;
+  if (n == 0) { count("empty_lp_not_judged"); return; }   // an LP without columns is not judged by any oracle of this harness (see DESIGN.md 16)
   auto ctx = ctx_of(o);
   std::vector<int> rows, cols; s.getBasis(rows, cols);
   int nb = 0; for (int v : rows) nb += v == sut::VS_BASIC; for (int v : cols) nb += v == sut::VS_BASIC;
